@@ -516,6 +516,31 @@ func checkN3(c *Ctx, pr *prioRoles) {
 			}
 		}
 	}
+	// the divisions of rFn in execution order: the last one hands out the remainder, the earlier
+	// (hypothetical-share) ones divide the full capacity
+	var divs []*ssa.Call
+	for _, b := range rFn.Blocks {
+		for _, in := range b.Instrs {
+			if call, ok := in.(*ssa.Call); ok && p.Callee(call) == pr.safeDivideFn {
+				divs = append(divs, call)
+			}
+		}
+	}
+	for i, call := range divs {
+		last := true
+		for j, other := range divs {
+			if i != j && instrDominates(call, other) {
+				last = false
+			}
+		}
+		if last {
+			continue
+		}
+		_, path, okp := deepStrip(p.Sym(call.Call.Args[2])).FieldPath()
+		if !(okp && strings.HasSuffix(strings.Join(path, "."), "HandlersQuantity")) {
+			bad = append(bad, "the division at "+p.InstrPos(call)+" that decides which priorities may receive the remainder divides "+p.Sym(call.Call.Args[2]).String()+" instead of HandlersQuantity: a priority that already holds that much is dropped from the re-division and a lone active priority is not granted all handlers")
+		}
+	}
 	// the measured remainder is the dividend of the last division in rFn
 	usedAsDividend := false
 	for _, ref := range *sumCall.Referrers() {
